@@ -125,7 +125,7 @@ def replay(payload):
         exp_status, exp_out = rf.apply(op)
         ref.judge(ctx, op, done, status, out, exp_status, exp_out, rw, rf)
         print(" ".join(op_tokens(op)), "->", status, out if status != "ok" else "")
-        if status != "ok" or exp_status != "ok":
+        if status != "ok" or exp_status != "ok" or ctx.violations:
             break
     for v in ctx.violations:
         print("VIOLATION", v.key, "-", v.what)
